@@ -157,11 +157,9 @@ def run(ctx):
             kind = rng.choice(["pg", "cyg", "mix"])
             kf = (lambda fn, i, kind=kind: kind if kind != "mix" else ("pg" if (fn + i) % 2 else "cyg"))
             sl = mcgen.script_lines(ops, kf)
-            if rng.random() < 0.2:       # SIGSEGV-style flush somewhere (not beyond max_stack: finding F11, see C04)
+            if rng.random() < 0.2:       # SIGSEGV-style flush somewhere (also beyond max_stack: F11 is repaired)
                 pos = rng.randrange(1, len(sl))
-                dnow = sum(1 for l in sl[:pos] if l.startswith("E ")) - sum(1 for l in sl[:pos] if l == "X")
-                if dnow <= (o.max_stack or 1024):
-                    sl.insert(pos, "FLUSH")
+                sl.insert(pos, "FLUSH")
             if rng.random() < 0.15:      # fork(): the child continues the parent's open calls in its own file
                 pos = rng.randrange(1, len(sl))
                 dnow = sum(1 for l in sl[:pos] if l.startswith("E ")) - sum(1 for l in sl[:pos] if l == "X")
